@@ -282,11 +282,21 @@ class World(object):
             ev = ("file_to_dir", d, rel)
         elif op == "file_to_link":
             rel = self.pick(d, s["fi"])
+            if s.get("prefer_empty"):
+                empties = [r for r in self.list_files(d) if os.path.getsize(self.full(d, r)) == 0]
+                if empties:
+                    rel = empties[s["fi"] % len(empties)]
             if rel is None:
                 return None
+            target = b"somewhere"
+            if s.get("target_fi") is not None:
+                others = [r for r in self.list_files(d) if r != rel and os.path.getsize(self.full(d, r)) > 0]
+                if others:
+                    t = others[s["target_fi"] % len(others)]
+                    target = os.path.relpath(self.full(d, t), os.path.dirname(self.full(d, rel)))
             os.unlink(self.full(d, rel))
-            os.symlink(b"somewhere", self.full(d, rel))
-            ev = ("file_to_link", d, rel)
+            os.symlink(target, self.full(d, rel))
+            ev = ("file_to_link", d, rel, target)
         else:
             raise ValueError("unknown fs op " + op)
         if ev:
